@@ -319,6 +319,12 @@ class Bus:
         elif r < self.o["id_less"] + 0.2:
             S.idc += 1
             idv = "s%d" % S.idc
+            if r < self.o["id_less"] + 0.06:
+                # an id nearly as long as a message may be: the answers that carry it back (owner's payload, timeout, owner gone) are
+                # longer than anything the caller itself may send
+                room = (S.max_msg if c.transport != "ws" else S.max_msg - 14) - len(json.dumps({"id": idv, "method": m, "params": pr})) - 2
+                if room > 20:
+                    idv = idv + "L" * rng.choice([room, room - 1, room // 2, max(1, room - 90)])
         self.note(m, c.name, pr, "no-id" if idv is None else "")
         S.request(c, m, pr, idv=idv, chunks=pick_chunks(rng))
 
@@ -334,6 +340,13 @@ class Bus:
         if r < self.o["hostile_owner"]:
             mode = "forged"
         self.note("reply", p.owner.name, p.fwd_id, kind, mode)
+        if mode == "right" and r > 0.95:
+            # a payload that is longer when the daemon prints it than it was on the wire (raw control characters inside a string,
+            # which the JSON library accepts and prints escaped), up to what fits into one message
+            room = (S.max_msg if p.owner.transport != "ws" else S.max_msg - 14) - len(json.dumps({"id": p.fwd_id, "result": ""})) - 2
+            if room > 8:
+                S.reply(p.owner, p, "result", payload="\x01" * rng.choice([room, room // 2, 7]), idmode=mode, chunks=pick_chunks(rng), raw_ctrl=True)
+                return
         S.reply(p.owner, p, kind, idmode=mode, chunks=pick_chunks(rng))
         if mode == "right" and rng.random() < 0.08:
             # duplicated reply: the second one must be ignored
